@@ -571,6 +571,9 @@ func UnmarshalVectorYAML(value *yaml.Node) (*GeneralizedType, error) {
 	return t, nil
 }
 
+// The largest number of dimensions that can be given as a count (`dimensions: n`).
+const maxArrayDimensionCount = 1024
+
 func UnmarshalArrayYAML(value *yaml.Node) (*GeneralizedType, error) {
 	if value.Kind != yaml.MappingNode {
 		return nil, parseError(value, "an !array must be specified with field `items` and optionally `dimensions`")
@@ -597,6 +600,12 @@ func UnmarshalArrayYAML(value *yaml.Node) (*GeneralizedType, error) {
 
 				if err := v.DecodeWithOptions(&ndims, yaml.DecodeOptions{KnownFields: true}); err != nil {
 					return nil, err
+				}
+				if ndims < 0 {
+					return nil, parseError(v, "the number of array dimensions cannot be negative")
+				}
+				if ndims > maxArrayDimensionCount {
+					return nil, parseError(v, "the number of array dimensions cannot be greater than %d", maxArrayDimensionCount)
 				}
 
 				dims := make(ArrayDimensions, ndims)
